@@ -463,7 +463,7 @@ def install(ctx):
                         finding("track-renumbering-split-a-track", f"part {i} old track {o!r} became both {fwd[src]} and {nw}",
                                 {"old": tok, "new": new})
                     prev = back.setdefault(nw, src)
-                    if prev != src and not ({prev[1], src[1]} == {"missing", -1} and prev[0] == src[0]):
+                    if prev != src and not ({prev[1], src[1]} == {"missing", 0} and prev[0] == src[0]):      # (no track number means track 0, as for notes and in the MIDI writer)
                         key = "track-renumbering-shared-between-parts" if prev[0] != i else "track-renumbering-merged-tracks-of-a-part"
                         finding(key, f"new track {nw} holds {prev} and {src} (part index, old track)", {"old": tok, "new": new})
         c.extra["track_pairs_renumbered"] += len(fwd)
@@ -479,7 +479,7 @@ def install(ctx):
         for i, t3 in enumerate(tracks_of(perf)):
             for lst in t3:
                 for o in lst:
-                    pairs.add((i, -1 if o == "missing" else int(o)))
+                    pairs.add((i, 0 if o == "missing" else int(o)))
         core.CURRENT.check()
         if ret != len(pairs):
             finding("num_tracks-wrong", f"num_tracks {ret}, distinct (part, track) pairs {len(pairs)}", {"tracks": tracks_of(perf)})
